@@ -430,6 +430,10 @@ class MinMaxAggregator:
                 lits_with_vars.append(blit)
             else:
                 lits_without_vars.append(blit)
+        result_variables: set[AST] = set()
+        for guard in (agg.atom.left_guard, agg.atom.right_guard):
+            if guard is not None:
+                result_variables.update(collect_ast(guard, "Variable"))
         # a literal that binds a variable of an already selected literal belongs to the group as well
         # (X = #sum { ..U.. } needs the s(U) that binds U)
         changed = True
@@ -437,6 +441,8 @@ class MinMaxAggregator:
             changed = False
             for blit in list(lits_without_vars):
                 blit_vars = set(x for x in collect_ast(blit, "Variable") if x.name != "_" and x in global_variables)
+                if blit_vars.intersection(result_variables):
+                    continue  # it talks about the value of the aggregate and stays with the rewritten statement
                 if blit_vars.intersection(rest_vars):
                     lits_without_vars.remove(blit)
                     lits_with_vars.append(blit)
